@@ -47,7 +47,7 @@ class CleanBase(Prop):
     def gen_tree(self, r, sort_names=False, nontest_ids=False):
         """Returns (setup ops, run ops, info). Layout: def/ holds the default multi-entry file (+ stale entries),
         stale standalone and unrelated files; d2/ is never addressed."""
-        tests = r.shuffle([b"TestA", b"TestB", b"TestB/sub", b"TestC10", b"TestC9", b"TestAlpha", b"TestZeta/x#01"])[: r.range(1, 4)]
+        tests = r.shuffle([b"TestA", b"TestB", b"TestB/sub", b"TestC10", b"TestC9", b"TestAlpha", b"TestZeta/x#01", b"TestList/list[0]", b"TestB/[k]"])[: r.range(1, 4)]
         # tidy_main: the default file needs neither pruning nor sorting (Clean must leave it alone and must not carry
         # anything over from it to the files it examines next)
         tidy_main = r.chance(1, 4)
